@@ -14,13 +14,23 @@ RULE = ("real static squareroot() of qmail-send.c on every age in [0,2^%(sq)s) p
         "each returned entry is a minimum of the reference multiset, final array heap-ordered and equal as a multiset); %(nh)s seeded "
         "daemon histories over a real on-disk queue directory driving the real pqstart/pqadd/pass_dochan/del_dochan/job_close/"
         "pqrun/pqfinish/pass_selprep with a virtual clock stepped to just before/at/after each computed retry time, ALRM, "
-        "TERM+restart, queuelifetime from 0 upwards (oracle: no start before the due time, earliest-due first, retry time strictly "
-        "in the future and equal to the quadratic formula, expired pass turns every Z into D with the too-long text and marks it, "
-        "restart preserves the schedule, ALRM makes everything due). ASan+UBSan build of the working tree. "
-        "non-trivial = in-domain root evaluations + retry cases + distinct op sequences of length >= 3 + distinct histories")
+        "TERM+restart, queuelifetime from 0 upwards, and injected system failures on about a fifth of the passes (open_read of the "
+        "channel file or of info/<id> fails -> trouble exit; unlink of the finished channel file fails; stat of the other channel "
+        "file fails: the libc call is wrapped inside the included source only) (oracle: no start before the due time, earliest-due "
+        "first, retry time strictly in the future and equal to the quadratic formula, not beyond birth+(isqrt(lifetime)+skip)^2 before "
+        "expiry, a ghost monitor of theorem C15_hist_backoff: no later start of the same message on the channel before the back-off "
+        "time owed since its last temporary failure, across TERM+restart; expired pass turns every Z into D with the too-long text and "
+        "marks it, restart preserves the schedule, ALRM makes everything due, after a failed open/unlink the message stays scheduled "
+        "and strictly later, nothing is lost: every existing channel file is on its channel heap and a message that left its last "
+        "channel is in pqdone); nextretry() at the edges of the no-overflow range (births up to LONG_MAX-65555^2, LONG_MIN, ages up "
+        "to LONG_MAX) compared with the wrapped-arithmetic model; %(np)s pqadd()/pqfail scenarios through the real pass_do()+pqadd() "
+        "with per-file stat outcomes exists/ENOENT/EIO for info, todo, local, remote (all four heaps compared after each call; oracle: "
+        "message never lost from all heaps, enters a channel heap only with the file's mtime, pqfail re-insertion in the future); "
+        "SLEEP_SYSFAIL printed by the harness and compared. ASan+UBSan build of the working tree. "
+        "non-trivial = in-domain root evaluations + retry cases + distinct op sequences of length >= 3 + distinct histories + distinct pqfail scenarios")
 
-QUICK = dict(sq=28, pq=8, nr=300, nh=4000, st=5)
-THOROUGH = dict(sq=32, pq=10, nr=3000, nh=20000, st=1)
+QUICK = dict(sq=28, pq=8, nr=300, nh=4000, st=5, np=1016)
+THOROUGH = dict(sq=32, pq=10, nr=3000, nh=20000, st=1, np=5016)
 
 
 def neighbourhood_cases(dis, seed):
@@ -67,8 +77,19 @@ def neighbourhood_cases(dis, seed):
                         else:
                             m[min(pos, len(m) - 1)] = op
                     cases.append("H " + ",".join(m + ["d"] * (len(m) + 1)))
+            elif p[0] == "P" and len(d.split("in=P,", 1)) == 2:
+                # in=P,<recent>,<now>,<failq>,<files>,<ncalls>: the lists contain commas themselves; re-split on the shape
+                m = re.match(r"P,(-?\d+),(-?\d+),((?:-?\d+:\d+,?)+|-),((?:\d+:[^:,]+:[^:,]+:[^:,]+:[^:,]+,?)+|-),(\d+)", f)
+                if m:
+                    rc, nw, fq, fs = int(m.group(1)), int(m.group(2)), m.group(3).rstrip(","), m.group(4).rstrip(",")
+                    for nc in range(1, 7):
+                        for dr in (0, -5, 5, 300):
+                            cases.append("P %d %d %s %s %d" % (rc + dr, nw + dr, fq, fs, nc))
+                    for one in fs.split(","):          # each message alone
+                        i = one.split(":")[0]
+                        cases.append("P %d %d %d:%s %s 2" % (rc, nw, rc - 1, i, one))
             elif p[0] == "S" and len(p) >= 3:
-                lt, script = p[1], p[2]
+                lt, script = p[1], f.split(",", 2)[2]      # the script itself contains commas
                 steps = script.split(";")
                 cases.append("S %s %s" % (lt, script))
                 for k in range(1, len(steps)):
@@ -95,6 +116,9 @@ def replay_cases(path, tmpdir):
     elif tag == "S":
         p = f.split(",", 2)
         line = "S %s %s" % (p[1], p[2]) if len(p) == 3 else ""
+    elif tag == "P":
+        m = re.match(r"P,(-?\d+),(-?\d+),((?:-?\d+:\d+,?)+|-),((?:\d+:[^:,]+:[^:,]+:[^:,]+:[^:,]+,?)+|-),(\d+)", f)
+        line = "P %s %s %s %s %s" % (m.group(1), m.group(2), m.group(3).rstrip(","), m.group(4).rstrip(","), m.group(5)) if m else ""
     else:
         line = ""
     out = os.path.join(tmpdir, "replay_cases.txt")
@@ -152,12 +176,14 @@ def main():
         "the file system keeps the mtime given to utimes() and returns it from stat() (pqfinish/pqadd; exercised on the real kernel FS in the history harness)",
         "qmail-lspawn/qmail-rspawn report every started delivery with a K, Z or D line (a mangled report is deferred even in the expiring pass: complement theorem C15_dying_mangled)",
         "allocation failure (prioq_readyplus, nomem loops) is not modelled",
+        "system failures are injected by wrapping stat/unlink/open_read inside the included qmail-send.c (EIO on chosen paths); the paths 'trouble reading' (getln fails mid-pass) and 'unknown record type' are covered by theorem C15_jobclose (hiteof=false) but not driven by the harness; utimes failure in pqfinish and messdone's own failure path (pqdone re-insertion) are outside the model",
+        "nextretry overflow: C signed overflow is undefined behaviour; the complement theorem C15_overflow_wraps describes the two's-complement result, which is not exercised on the UBSan build",
         "the history harness drives pass_dochan/del_dochan/pqrun/pqfinish/pqstart directly (not through main()'s select loop); the loop itself belongs to the Daemon model (C03/C04/C16)",
     ]
     standard_verdict(c, ok, stats, disagree, oracle, errors,
-                     "Nq.Sched (squareroot/nextretry/PQ/passStart/jobOpen/report/pqrun/pqfinish/pqstart) vs qmail-send.c + prioq.c",
+                     "Nq.Sched (squareroot/nextretry/PQ/passStart/jobOpen/report/pqrun/pqfinish/pqstart/passTrouble/jobCloseF/pqaddF/passDoFail) and Nq.SchedHist.step vs qmail-send.c + prioq.c",
                      neighbourhood,
-                     replay_hint="./check C15 --replay <file of stdin cases for harness/c15_sched.c: Q lo hi | N birth recent chan | H ops | S lifetime script>")
+                     replay_hint="./check C15 --replay <file of stdin cases for harness/c15_sched.c: Q lo hi | N birth recent chan | H ops | S lifetime script | P recent now pqfail files ncalls>")
     c.finish()
 
 
